@@ -23,3 +23,8 @@ def unfold_letters(n, base, radix):
 def remaining(it):
     """items a list iterator has not yielded yet"""
     return it.__length_hint__()
+
+
+def dec(encoding, data):
+    """data.decode(encoding) -- the codec itself is trusted"""
+    return data.decode(encoding)
